@@ -468,7 +468,7 @@ impl Mon {
     /// a purge may clear the counts only once nothing can be minted any more: sold out, or past the end time
     fn purge_ok(&mut self, p: &Pre) {
         let sold_out = p.mintable == Some(0);
-        let ended = p.end_time.map_or(false, |e| p.now > e);
+        let ended = p.end_time.map_or(false, |e| p.now >= e); // from the end time on nothing can be minted
         if !sold_out && !ended {
             self.violations.push((
                 "C03:purge-before-sell-out".into(),
@@ -1369,8 +1369,9 @@ fn probe_plans() -> Vec<(String, Plan)> {
 fn corpus() -> Vec<Case> {
     let mut v = vec![];
     // --- the repaired defect C03:merkle-unproven-allocation, both Merkle variants ---
-    for variant in [4usize, 5] {
+    for variant in [4usize, 5, 8] {
         // plain whitelist, per_address_limit 1: Mint{proof_hashes: None, allocation: Some(5)} four times => exactly one
+        if variant < 6 {
         v.push(Case {
             tag: "corpus:unproven-allocation:plain-whitelist".into(),
             variant,
@@ -1392,6 +1393,7 @@ fn corpus() -> Vec<Case> {
                 mintm("buyer3", WL_PRICE, None, None, Some(5)),
             ],
         });
+        }
         // Merkle whitelist, leaf (buyer1, 1): a proof for allocation 1 presented with allocation 5, four times; then
         // no proof at all; then honestly: exactly one
         let sp = WlSpec {
@@ -1411,7 +1413,7 @@ fn corpus() -> Vec<Case> {
             pal: 3,
             price: PUB_PRICE,
             start_in: START,
-            end_in: None,
+            end_in: if variant >= 6 { Some(6000) } else { None },
             unlimited: false,
             init_wl: None,
             ops: vec![
